@@ -30,9 +30,12 @@ Watchers == {"w:" \o s : s \in AllScopes \ {"root"}}
 ScopeOfWatcher(w) == CHOOSE s \in AllScopes : w = "w:" \o s
 Procs == Threads \cup Watchers
 
-Keys == {"S", "A", "B", "T"}
+\* I and J are two interface aliases of one scoped registration X; M and N the two results of one scoped
+\* multi-return constructor MN: one construction (one flight) serves both identities
+Keys == {"S", "A", "B", "T", "I", "J", "M", "N"}
 LifeOfKey(k) == IF k = "S" THEN "singleton" ELSE IF k = "T" THEN "transient" ELSE "scoped"
 DepsOfKey(k) == IF k = "A" THEN <<"B">> ELSE <<>>
+Flight(k) == IF k \in {"I", "J"} THEN "X" ELSE IF k \in {"M", "N"} THEN "MN" ELSE k
 
 VARIABLES
     exists, parent, disposed, inst, creating, disp, drained, children, ctxDone, done,   \* per scope
@@ -135,18 +138,18 @@ GetStart(p) ==      \* gate R_check: the disposed check and, by lifetime, what f
 GetLookup(p) ==     \* gate R_lookup: cache lookup; claim the construction or find it in flight
     /\ AtPc(p, "get", "lookup")
     /\ LET f == Top(p) IN
-       IF ~inst[f.s].nil /\ \E i \in inst[f.s].v : i.k = f.k
-       THEN Return(p, NONE, CHOOSE i \in inst[f.s].v : i.k = f.k) /\ UNCHANGED <<svars, pvars, wstate, gvars>>   \* cache hit
-       ELSE IF f.k \in creating[f.s]
+       IF ~inst[f.s].nil /\ \E i \in inst[f.s].v : i.k = Flight(f.k)
+       THEN Return(p, NONE, CHOOSE i \in inst[f.s].v : i.k = Flight(f.k)) /\ UNCHANGED <<svars, pvars, wstate, gvars>>   \* cache hit
+       ELSE IF Flight(f.k) \in creating[f.s]
        THEN stack' = SetTop(p, [f EXCEPT !.pc = "wait"]) /\ UNCHANGED <<svars, pvars, result, wstate, gvars>>
-       ELSE /\ creating' = [creating EXCEPT ![f.s] = @ \cup {f.k}]
+       ELSE /\ creating' = [creating EXCEPT ![f.s] = @ \cup {Flight(f.k)}]
             /\ stack' = SetTop(p, [f EXCEPT !.pc = "deps", !.todo = DepsOfKey(f.k), !.flight = TRUE])
             /\ UNCHANGED <<exists, parent, disposed, inst, disp, drained, children, ctxDone, done, pvars, result, wstate, gvars>>
     /\ Step(p, "R_lookup")
 
 GetWait(p) ==       \* gate R_wait: blocked until the construction in flight has finished, then look again
     /\ AtPc(p, "get", "wait")
-    /\ Top(p).k \notin creating[Top(p).s]
+    /\ Flight(Top(p).k) \notin creating[Top(p).s]
     /\ stack' = SetTop(p, [Top(p) EXCEPT !.pc = "lookup"])
     /\ UNCHANGED <<svars, pvars, result, wstate, gvars>>
     /\ Step(p, "R_wait")
@@ -161,7 +164,7 @@ GetDeps(p) ==
        ELSE stack' = SetTop(p, [f EXCEPT !.pc = "ctor"])
     /\ UNCHANGED <<svars, pvars, result, wstate, gvars, ops, hist>>
 
-ReleaseFlight(f) == IF f.flight THEN creating' = [creating EXCEPT ![f.s] = @ \ {f.k}] ELSE UNCHANGED creating
+ReleaseFlight(f) == IF f.flight THEN creating' = [creating EXCEPT ![f.s] = @ \ {Flight(f.k)}] ELSE UNCHANGED creating
 
 GetDepRet(p) ==     \* a dependency came back: go on, or give up (no gate)
     /\ AtPc(p, "get", "dep_ret")
@@ -175,7 +178,7 @@ GetDepRet(p) ==     \* a dependency came back: go on, or give up (no gate)
 GetCtor(p) ==       \* gate U_ctor: the user constructor runs and returns a new instance
     /\ AtPc(p, "get", "ctor")
     /\ LET f == Top(p)
-           i == [o |-> f.s, k |-> f.k, n |-> nextId]
+           i == [o |-> f.s, k |-> Flight(f.k), n |-> nextId]
        IN /\ created' = created \cup {i}
           /\ nextId' = nextId + 1
           /\ stack' = SetTop(p, [f EXCEPT !.i = i, !.pc = IF LifeOfKey(f.k) = "scoped" THEN "store" ELSE "track"])
@@ -288,26 +291,26 @@ CreateAbandoned(p) ==
 (***************************************************************************)
 (* scope.Close  [proc "close"]                                             *)
 (***************************************************************************)
-CloseCas(p) ==      \* gate C_cas: the compare-and-swap gate; the winner cancels the scope's context
+CloseCas(p) ==      \* gate C_cas: the compare-and-swap gate
     /\ AtPc(p, "close", "start")
     /\ LET f == Top(p) IN
        IF disposed[f.s]
        THEN Return(p, NONE, 0) /\ UNCHANGED <<svars>>
        ELSE /\ disposed' = [disposed EXCEPT ![f.s] = TRUE]
-            /\ ctxDone' = [x \in AllScopes |-> ctxDone[x] \/ (x \in Desc(f.s, {y \in AllScopes : exists[y]}))]
             /\ stack' = SetTop(p, [f EXCEPT !.pc = "children"])
-            /\ UNCHANGED <<exists, parent, inst, creating, disp, drained, children, done, result>>
+            /\ UNCHANGED <<exists, parent, inst, creating, disp, drained, children, ctxDone, done, result>>
     /\ UNCHANGED <<pvars, wstate, gvars>>
     /\ Step(p, "C_cas")
 
-CloseChildren(p) == \* gate C_children: take the children and clear the table under the lock
+CloseChildren(p) == \* gate C_children: take the children and clear the table under the lock, then cancel the context
     /\ AtPc(p, "close", "children")
     /\ LET f == Top(p) IN
        /\ children' = [children EXCEPT ![f.s] = Nil]
+       /\ ctxDone' = [x \in AllScopes |-> ctxDone[x] \/ (x \in Desc(f.s, {y \in AllScopes : exists[y]}))]
        /\ \E order \in {o \in [1..Cardinality(children[f.s].v) -> children[f.s].v] : Range(o) = children[f.s].v} :
              /\ stack' = SetTop(p, [f EXCEPT !.todo = order, !.pc = "nextchild"])
              /\ StepOrd(p, "C_children", order)
-    /\ UNCHANGED <<exists, parent, disposed, inst, creating, disp, drained, ctxDone, done, pvars, result, wstate, gvars>>
+    /\ UNCHANGED <<exists, parent, disposed, inst, creating, disp, drained, done, pvars, result, wstate, gvars>>
 
 CloseNextChild(p) == \* no gate: call Close of the next child (its C_cas is the next gate), or go on to the drain
     /\ AtPc(p, "close", "nextchild")
@@ -499,7 +502,7 @@ ClosedAtMostOnce == \A i \in DOMAIN closedCount : closedCount[i] <= 1
 AtMostOneScoped == \A s \in AllScopes : ~inst[s].nil => \A i, j \in inst[s].v : i.k = j.k => i = j
 ScopedResultsAgree == \A t1, t2 \in Threads :
     (stack[t1] = <<>> /\ stack[t2] = <<>> /\ ops[t1].op = "get" /\ ops[t2].op = "get" /\ ops[t1].s = ops[t2].s
-     /\ ops[t1].k = ops[t2].k /\ ops[t1].k \in {"A", "B"} /\ result[t1].err = NONE /\ result[t2].err = NONE)
+     /\ Flight(ops[t1].k) = Flight(ops[t2].k) /\ LifeOfKey(ops[t1].k) = "scoped" /\ result[t1].err = NONE /\ result[t2].err = NONE)
     => result[t1].val = result[t2].val
 
 \* C10: at quiescence everything created in a closed scope (or anywhere, once the provider is closed) is closed once
